@@ -54,14 +54,33 @@ def _rec_wal_class():
             self.applog, self.truncs, self.unsafe, self.unapplied, self.home = [], [], set(), set(), {}
 
         def append(self, key, value):
-            seq = self._next_sequence
-            self.applog.append((seq, key, ABSENT if value is _TOMBSTONE else value))
-            self.unapplied.add(seq)
-            out = yield from super().append(key, value)
-            self.unapplied.discard(seq)        # the caller applies the entry to the active memtable in the same step
-            tree = getattr(self, "peek", None)
-            if tree is not None:
-                self.home[seq] = tree._memtable
+            # The sequence number and log record of this call are OBSERVED, never predicted: the wrapped generator is stepped
+            # by hand and the step during which _next_sequence advances is the one that appended this call's entry (a generator
+            # step is atomic, nothing else runs inside it).  Until then the operation has no identifiable record (aux None).
+            rec, self.current_rec = getattr(self, "current_rec", None), None
+            gen = super().append(key, value)
+            seq, sent = None, None
+            while True:
+                n0 = self._next_sequence
+                try:
+                    y = gen.send(sent)
+                    out, done = None, False
+                except StopIteration as stop:
+                    out, done = stop.value, True
+                if seq is None and self._next_sequence != n0:
+                    seq = n0
+                    self.applog.append((seq, key, ABSENT if value is _TOMBSTONE else value))
+                    self.unapplied.add(seq)
+                    if rec is not None:
+                        rec.aux = seq
+                if done:
+                    break
+                sent = yield y
+            if seq is not None:
+                self.unapplied.discard(seq)    # the caller applies the entry to the active memtable in the same step
+                tree = getattr(self, "peek", None)
+                if tree is not None:
+                    self.home[seq] = tree._memtable
             return out
 
         def truncate(self, up_to_sequence):
@@ -121,7 +140,8 @@ def run_epoch(ctx, workers, stop_after=None, start_ns=0, wid_off=0):
         code, k, _gap = _op(op)
         key = keys[k % nkeys]
         rec.key = key
-        rec.aux = wal._next_sequence          # the sequence number this write gets (append runs at the first step)
+        rec.aux = None                  # WAL sequence number of this write: filled in by the recording WAL when it observes the
+        wal.current_rec = rec           # entry being appended (put/delete enter wal.append in this very step)
         if code % 4 == 3:
             rec.kind = "del"
             yield from lsm.delete(key)
@@ -177,19 +197,16 @@ def judge_recovered(add, obl, ops, is_durable, ctx, pre, reads, S_now, S, in_wal
     history (all epochs), `is_durable(rec)` = its WAL sync had completed before the crash that ended ITS epoch."""
     wal, keys = ctx["wal"], ctx["keys"]
     r1, r2, r3 = reads
-    # --- consistency of the harness's own bookkeeping (seq numbers noted by the workers vs. the WAL log)
-    byseq = {s: (key, v) for s, key, v in wal.applog}
+    # an operation whose log record has not been observed yet (rec.aux is None: still in its append latency) is not durable
     orc = IntervalOracle()
     for rec in ops:
         if rec.kind not in ("put", "del"):
             continue
         val = rec.value if rec.kind == "put" else ABSENT
-        if byseq.get(rec.aux) != (rec.key, val):
-            raise AssertionError(f"harness bookkeeping: op {rec.brief()} expected seq {rec.aux}, WAL logged {byseq.get(rec.aux)}")
         orc.add_write(rec.key, val, rec)
     for key in keys:
         hist = orc._hist(key)
-        dur = [w for w in hist if w.rec is not None and is_durable(w.rec)]
+        dur = [w for w in hist if w.rec is not None and w.rec.aux is not None and is_durable(w.rec)]
         # acceptable: any write (or the initial absence) not definitely superseded by a durable write
         acc = [w for w in hist if not any(d is not w and before(w, d) for d in dur)]
         okv = [w.value for w in acc]
@@ -241,7 +258,7 @@ def judge_crash_point(r, obl, case, k, seen):
             r.add(sig, f"[{info['desc']}] crash after {k} events (S={S}): {detail}")
 
     judge_recovered(add, obl, h.ops, lambda rec: rec.aux <= S, info, pre, (r1, r2, r3), S_now, S, in_wal)
-    truncated_newer = bool(wal.truncs) and any(rec.aux <= max(wal.truncs) and rec.aux not in in_wal and not rec.done for rec in h.ops)
+    truncated_newer = bool(wal.truncs) and any(rec.aux is not None and rec.aux <= max(wal.truncs) and rec.aux not in in_wal and not rec.done for rec in h.ops)
     return h, suspended, truncated_newer, [s.name for s in inflight]
 
 
